@@ -9,6 +9,7 @@ import (
 	"runtime"
 	"sort"
 	"sync"
+	"time"
 
 	"github.com/privacybydesign/gabi"
 	gbig "github.com/privacybydesign/gabi/big"
@@ -374,6 +375,49 @@ func suiteC20(s *Suite, rng *Rng, tier string) {
 		if n := cred.VerifNonrevCacheLen(); n > 1 {
 			s.Violate("C20:cache-overfull", fmt.Sprintf("cache holds %d builders", n), L{hist})
 		}
+	}
+
+	// ---------- B'. parallel key generation (under the race detector in the race build) ----------
+	{
+		G := []int{4, 8, 16}[rng.Intn(3)]
+		per := 2
+		if thorough {
+			per = 10
+		}
+		before := runtime.NumGoroutine()
+		params := keygenParams(128)
+		var wg sync.WaitGroup
+		var mu sync.Mutex
+		var keys []*gabikeys.PrivateKey
+		for g := 0; g < G; g++ {
+			wg.Add(1)
+			go func(g int) {
+				defer wg.Done()
+				for k := 0; k < per; k++ {
+					sk, _, err := gabikeys.GenerateKeyPair(params, 1, uint(g), time.Unix(1900000000, 0))
+					if err != nil {
+						s.Violate("C20:concurrent-key-generation-failed", err.Error(), L{G})
+						return
+					}
+					mu.Lock()
+					keys = append(keys, sk)
+					mu.Unlock()
+				}
+			}(g)
+		}
+		wg.Wait()
+		for _, sk := range keys {
+			if why := pairProblem(sk); why != "" {
+				s.Violate("C20:concurrently-generated-key-invalid", fmt.Sprintf("a key generated by %d goroutines at once is not as valid as a sequentially generated one: %s", G, why), L{sk.P, sk.Q})
+			}
+		}
+		s.Dist[fmt.Sprintf("parallel-keygen-G%d", G)] += len(keys)
+		s.Nontrivial[fmt.Sprint("keygen", G, len(keys))] = true
+		// the safe-prime workers read the shared generator: let them finish before the suite draws from it again
+		waitGoroutines(before, 5*time.Second)
+		// (taking the reader's lock once orders the workers' last draws before the suite's own use of the generator)
+		lr.mu.Lock()
+		lr.mu.Unlock()
 	}
 
 	// ---------- C. the hand-off model on explicit schedules (in-Coq evaluation of the interleaving model) ----------
